@@ -1,11 +1,13 @@
 PROP = {
     "id": "C16",
     "theorem_modules": ["Verif.Properties.C16"],
-    "min_theorems": 5,
+    "min_theorems": 7,
     "required_theorems": [
         "Verif.Properties.C16.int_target",
         "Verif.Properties.C16.word_target",
         "Verif.Properties.C16.fix_target",
+        "Verif.Properties.C16.fix_target_rounding_partial",
+        "Verif.Properties.C16.rounds_to_zero_witness",
     ],
     "streams": [
         {"name": "conv", "driver": "drv_conv",
